@@ -9,6 +9,7 @@ package rpc
 // judged by the Lean monitors for C14, C15 and C16.
 
 import (
+	"bufio"
 	"errors"
 	"fmt"
 	"io"
@@ -396,12 +397,24 @@ func runConn(g *prng, p connPlan) (hist []string, steps int) {
 	}
 	r.finish()
 	synctest.Wait()
+	lastConnTlog = append([]string(nil), r.s.tlog...)
 	return r.hist, r.steps
 }
+
+// site-level trace of the last connection scenario
+var lastConnTlog []string
 
 func init() {
 	verifModes["conn"] = func(c *vctx) {
 		total := 0
+		var tlogFile *bufio.Writer
+		if p := os.Getenv("VERIF_TLOG_FILE"); p != "" {
+			if fh, err := os.Create(p); err == nil {
+				tlogFile = bufio.NewWriterSize(fh, 1<<20)
+				defer fh.Close()
+				defer tlogFile.Flush()
+			}
+		}
 		synctest.Test(c.t, func(t *testing.T) {
 			g := newPrng(c.seed, 61)
 			stuck := 0
@@ -414,6 +427,9 @@ func init() {
 						stuck++
 					}
 				}
+				if tlogFile != nil {
+					fmt.Fprintf(tlogFile, "TLOG %d conn\n%s\n", i, strings.Join(lastConnTlog, "\n"))
+				}
 				c.note("conn scen=%d steps=%d cmds=%d dials=%v", i, steps, len(plan.cmds), plan.dials)
 				c.op("cmon %s", strings.Join(hist, " ; "))
 				c.res("ok")
@@ -422,6 +438,9 @@ func init() {
 			c.ops.Flush()
 			c.out.Flush()
 			c.meta.Flush()
+			if tlogFile != nil {
+				tlogFile.Flush()
+			}
 			if stuck > 0 {
 				os.Exit(0)
 			}
